@@ -1,6 +1,18 @@
 """Per-property manifest entries (source for tools_manifest.py)."""
 
 CHECKS = {
+    "C01": dict(
+        level="other",
+        text="Decides a necessary clause, not the behaviour: each advection scheme (EF, RK2, RK4, get_velocity1/2/4) is reduced by abstract interpretation in a rational-normal-form domain to its Butcher tableau and the order conditions of order 1/2/4 are evaluated exactly; the stored position is X + U*dt/dx per axis. A scheme that fails them cannot converge with its order for any field; convergence on real fields is not decided.",
+        note="Trusted: CPython ast, Fraction arithmetic, the checker. Assumed: clip is the identity in the interior; the velocity oracle is exact (C02/C03). Not decided: observed convergence, clipping, land.",
+        technique="static analysis: abstract interpretation (rational normal forms) + Butcher tableau extraction + exact order conditions",
+    ),
+    "C11": dict(
+        level="other",
+        text="Decides the second-moment algebra and the independence structure, not the sampled distribution: with each rng.normal call replaced by a unit-variance atom the squared coefficient of the draw in the stored position equals 2*D*dt/dx^2 (2*Dz*dt), there is no constant term, U/V/W use distinct per-call draws of the current particle count, and no draw is made when both coefficients are zero.",
+        note="Trusted: numpy Generator.normal(size=n) yields n independent N(0,1); CPython ast; the checker. Not decided: sample statistics, land interaction.",
+        technique="static analysis: abstract interpretation (rational normal forms with half-integer monomial powers) + control-dependence of RNG uses",
+    ),
     "C19": dict(
         level="proof",
         text="Exhaustive path enumeration of Model.update, main, Model.finish, the warm block, load_module and the role constructors; on every path the word of resolved role-method calls equals the step protocol. The functions are small and loop-free apart from two literal-list loops, so the enumeration is complete: a proof of the ordering/multiplicity clause for the shipped modules.",
